@@ -21,6 +21,7 @@ import (
 	"strconv"
 	"strings"
 	"sync"
+	"sync/atomic"
 	"syscall"
 	"time"
 
@@ -77,6 +78,7 @@ type c35Result struct {
 	Deep      bool  // got past the first parser stage
 	Tags      []string
 	Err       string
+	Took      time.Duration
 }
 
 func (r *c35Result) tag(s string) { r.Tags = append(r.Tags, s) }
@@ -362,7 +364,7 @@ type c35Limits struct {
 	Dial, Reply, Final, Idle time.Duration
 }
 
-var c35Lim = c35Limits{Dial: 5 * time.Second, Reply: 900 * time.Millisecond, Final: 700 * time.Millisecond, Idle: 120 * time.Millisecond}
+var c35Lim = c35Limits{Dial: 5 * time.Second, Reply: 2500 * time.Millisecond, Final: 600 * time.Millisecond, Idle: 120 * time.Millisecond}
 
 // readReply reads until a complete text reply (text protocols), or until the line goes idle, or max.
 func c35ReadReply(c net.Conn, e *c35Exch, text bool, max time.Duration) (eof bool) {
@@ -647,19 +649,29 @@ func (s *c35Srv) sendSRTDial(in *c35Input) (res c35Result) {
 			d = d[n:]
 		}
 	}
-	buf := make([]byte, 2048)
-	deadline := time.Now().Add(300 * time.Millisecond)
-	for time.Now().Before(deadline) {
-		c.SetReadDeadline(deadline) //nolint:errcheck
-		n, err := c.Read(buf)
-		if err != nil {
-			break
+	// gosrt ignores read deadlines: read in a goroutine, Close() unblocks it
+	var got atomic.Int64
+	done := make(chan struct{})
+	go func() {
+		defer close(done)
+		buf := make([]byte, 2048)
+		for {
+			n, err := c.Read(buf)
+			if n > 0 && got.Add(int64(n)) > 64*1024 {
+				return
+			}
+			if err != nil {
+				return
+			}
 		}
-		res.Reply += n
-		if res.Reply > 64*1024 {
-			break
-		}
+	}()
+	select {
+	case <-done:
+	case <-time.After(300 * time.Millisecond):
 	}
+	c.Close()
+	<-done
+	res.Reply = int(got.Load())
 	return res
 }
 
@@ -1054,3 +1066,74 @@ func (s *c35Srv) canaries() string {
 func c35B64(s string) string { return base64.StdEncoding.EncodeToString([]byte(s)) }
 
 var _ = http.MethodGet
+
+// ---------------------------------------------------------------- known finding: gosrt handshake extension walk
+
+// c35KeySRTExtBounds: a handshake CONCLUSION datagram whose extension area ends with 1-3 stray bytes panics gosrt's
+// CIFHandshake.Unmarshal in the server's accept goroutine (pinned by TestVerifC35RegressSRTHandshakeExtBounds in
+// servers/srt). While it is listed as known, such datagrams are repaired (stray bytes dropped) so that the search goes on.
+const c35KeySRTExtBounds = "c35-srt-handshake-extension-bounds"
+
+// c35SRTSafeLen mirrors the extension walk of gosrt's parser: it returns the length up to which the datagram can be
+// kept and whether the full datagram would have hit the unchecked read.
+func c35SRTSafeLen(d []byte) (int, bool) {
+	if len(d) < 16+48 || d[0] != 0x80 || d[1] != 0x00 { // not a handshake control packet
+		return len(d), false
+	}
+	cif := d[16:]
+	if binary.BigEndian.Uint32(cif[20:24]) != 0xffffffff || binary.BigEndian.Uint16(cif[6:8]) == 0 || len(cif) <= 48 {
+		return len(d), false
+	}
+	switch binary.BigEndian.Uint16(cif[4:6]) {
+	case 0, 2, 3, 4:
+	default:
+		return len(d), false
+	}
+	off := 16 + 48
+	for {
+		if len(d)-off < 4 {
+			return off, true
+		}
+		typ := binary.BigEndian.Uint16(d[off:])
+		n := int(binary.BigEndian.Uint16(d[off+2:])) * 4
+		off += 4
+		rest := len(d) - off
+		switch typ {
+		case 1, 2:
+			if n != 12 || rest < n {
+				return len(d), false
+			}
+		case 5:
+			if n > 512 || rest < n {
+				return len(d), false
+			}
+		case 6:
+			if n > 4 || rest < n {
+				return len(d), false
+			}
+		default: // key material (its own parser may refuse it earlier: then nothing is lost by the repair) and unknown types
+			if rest < n {
+				return len(d), false
+			}
+		}
+		if rest > n {
+			off += n
+		} else {
+			return len(d), false
+		}
+	}
+}
+
+// c35RepairKnown rewrites the datagrams of an input that would hit a known finding; returns the keys hit.
+func c35RepairKnown(in *c35Input, known func(string) bool) []string {
+	var hit []string
+	if in.L == "srt" && (in.K == "udp" || in.K == "srtraw") && known(c35KeySRTExtBounds) {
+		for i := range in.Segs {
+			if n, bad := c35SRTSafeLen(in.Segs[i].D); bad {
+				in.Segs[i].D = in.Segs[i].D[:n]
+				hit = append(hit, c35KeySRTExtBounds)
+			}
+		}
+	}
+	return hit
+}
